@@ -378,6 +378,10 @@ func VerifC12AMQP() {
 		}
 	}
 	verifAssert(d.invalid == 0, "no-invalid-count-for-amqp")
+	if verifParam("kept") == "1" {
+		// experiment only (not registered): stronger than the Dispatcher contract, see obl_C12.py "outside"
+		verifAssert(verifKeptIntact(d), "dispatched-slices-not-overwritten-before-consumer-returns")
+	}
 	verifCover("end")
 }
 
